@@ -118,13 +118,13 @@ class AliasWorld(WorldBase):
             names = self.catalogue(self.sf, e.extra['kind'])
             return {'op': 'call', 'h': h, 'member': ch.choice(names), 'pat': ch.randint(0, len(PATTERNS) - 1), 'try_all': ch.chance(0.7)}
         if what == 'roundtrip':
-            return {'op': 'roundtrip', 'h': h, 'how': ch.choice(['pickle', 'deepcopy', 'copy'])}
+            return {'op': 'roundtrip', 'h': h, 'how': ch.choice(['pickle', 'deepcopy', 'copy', 'deepcopy_with_array', 'pickle_with_array'])}
         if what == 'selector':
             return {'op': 'selector', 'h': h, 'iface': ch.choice(['iloc', 'loc', 'getitem', 'drop_iloc', 'assign_iloc', 'mask_iloc', 'masked_array_iloc', 'bloc', 'assign_bloc', 'via_str', 'via_dt', 'via_T', 'via_fill_value', 'iter']),
                     'key': ch.choice([0, 1, {'slice': [0, 2]}, [0], [1, 0], {'bools': 1}, {'pair': [0, 0]}, {'pair': [{'slice': [0, 2]}, 0]}, {'pair': [[0, 1], [0]]}]),
                     'extra': ch.randint(0, 6)}
         if what == 'operator':
-            return {'op': 'operator', 'h': h, 'which': ch.choice(['add', 'mul', 'eq', 'neg', 'invert', 'abs', 'matmul', 'lt', 'radd', 'self', 'floordiv', 'and']),
+            return {'op': 'operator', 'h': h, 'which': ch.choice(['add', 'mul', 'eq', 'neg', 'invert', 'abs', 'matmul', 'lt', 'radd', 'self', 'floordiv', 'and', 'round', 'round1', 'rmatmul']),
                     'other_h': ch.choice(hs)}
         if what == 'go_grow':
             return {'op': 'go_grow', 'h': h, 'how': ch.choice(['to_frame_go', 'ctor_go', 'to_frame_go_twice', 'columns_go', 'index_go']), 'grow': ch.choice(['setitem', 'extend', 'extend_items', 'append'])}
@@ -564,7 +564,15 @@ class AliasWorld(WorldBase):
             return 'skip'
         how = op['how']
         site = f"{e.extra['kind']}.{how}"
-        st, r = call({'pickle': lambda: pickle.loads(pickle.dumps(e.obj)), 'deepcopy': lambda: copy.deepcopy(e.obj), 'copy': lambda: copy.copy(e.obj)}[how])
+        def with_array(fn):
+            # the caller keeps one of the container's arrays next to the container in the structure it copies
+            arrs = self._arrays_of(e.obj)
+            held = arrs[0][1] if arrs else None
+            out = fn({'cached': held, 'container': e.obj})
+            return out['container']
+        st, r = call({'pickle': lambda: pickle.loads(pickle.dumps(e.obj)), 'deepcopy': lambda: copy.deepcopy(e.obj), 'copy': lambda: copy.copy(e.obj),
+                      'deepcopy_with_array': lambda: with_array(copy.deepcopy),
+                      'pickle_with_array': lambda: with_array(lambda x: pickle.loads(pickle.dumps(x)))}[how])
         if st == 'raise':
             self.fault('failing-call')
             return 'raise:' + type(r).__name__
@@ -692,15 +700,15 @@ class AliasWorld(WorldBase):
         w = op['which']
         site = f"{e.extra['kind']}.operator:{w}"
         fns = {'add': lambda: a + 1, 'mul': lambda: a * 2, 'eq': lambda: a == b, 'neg': lambda: -a, 'invert': lambda: ~a, 'abs': lambda: abs(a),
-               'matmul': lambda: a @ b, 'lt': lambda: a < b, 'radd': lambda: 1 + a, 'self': lambda: a + b, 'floordiv': lambda: a // 2, 'and': lambda: a & b}
-        if w == 'matmul':
+               'matmul': lambda: a @ b, 'rmatmul': lambda: list(range(len(a))) @ a, 'round': lambda: round(a), 'round1': lambda: round(a, 1), 'lt': lambda: a < b, 'radd': lambda: 1 + a, 'self': lambda: a + b, 'floordiv': lambda: a // 2, 'and': lambda: a & b}
+        if w in ('matmul', 'rmatmul'):
             # NumPy 2.5.3 corrupts reference counts when an object-dtype matmul raises half way (segfault later, reproduced
             # without static-frame's help being needed); only numeric operands are multiplied
             def numeric(x):
                 st_, sn = call(snap, x)
                 if st_ == 'raise':
                     return False
-                kinds = [c[0] for c in sn.get('cols', [])] + ([sn['dt']] if 'dt' in sn else [])
+                kinds = [c[0] for c in sn.get('cols', [])] + ([sn['dt']] if 'dt' in sn else []) + list(sn.get('dts') or [])
                 return bool(kinds) and all(k and k[0] in 'ifb' for k in kinds)
             if not (numeric(a) and numeric(b)):
                 return 'skip'
